@@ -214,6 +214,23 @@ def canon(v, rw):
     return str(v)
 
 
+def i2f_rounding(w, fw, rng):
+    """integers around the rounding midpoints of the destination float format: exact ties (both parities of the kept
+    bit), one below / one above a tie, and a tie +- a bit far below the float64 precision (double rounding through a
+    wider or narrower intermediate format shows only there)"""
+    m = {32: 24, 64: 53}[fw]
+    out = []
+    for e in range(m, w):                     # 2^e <= |x| < 2^(e+1); ulp = 2^(e-m+1); half = 2^(e-m)
+        half = 1 << (e - m)
+        for keep in (0, 1, rng.getrandbits(m - 2) << 1, (rng.getrandbits(m - 2) << 1) | 1):
+            base = (1 << e) + ((keep % (1 << (m - 1))) << (e - m + 1))
+            for d in (0, -1, 1, rng.getrandbits(max(e - m, 1)) % half if half > 1 else 0):
+                v = base + half + d
+                if v < (1 << w):
+                    out += [v, ((1 << w) - v) % (1 << w)]     # and its two's-complement negation (signed sources)
+    return out
+
+
 def float_phase(ctx, quick):
     """floats and complex numbers: differential execution against the reference Go toolchain (no theorem)"""
     rng = ctx.rng
@@ -246,7 +263,7 @@ def float_phase(ctx, quick):
         elif k == "fun":
             ops_ = [(a, 0, 0, 0) for a in fopsgen.fboundary(w) + [rng.getrandbits(w) for _ in range(16)]]
         elif k == "i2f":
-            ops_ = [(a, 0, 0, 0) for a in boundary(w) + [rng.getrandbits(w) for _ in range(8)]]
+            ops_ = [(a, 0, 0, 0) for a in boundary(w) + [rng.getrandbits(w) for _ in range(8)] + i2f_rounding(w, c["fw"], rng)]
         elif k == "f2i":
             fw = c["fw"]
             cand = fopsgen.fboundary(fw) + [rng.getrandbits(fw) for _ in range(40)]
